@@ -14,9 +14,14 @@
 EXTENDS Integers, Sequences, FiniteSets, TLC
 
 CONSTANTS Names,       \* DAG ids
-          Steps        \* step names of every definition (all texts define the same steps)
-ValidTexts   == {"A", "B", "T", "E"}     \* "T" = the template a new DAG is created with, "E" = the empty text (the loader accepts it)
+          Steps        \* step names that a mark action may address
+ValidTexts   == {"A", "B", "C", "D", "T", "E"}   \* "T" = the template a new DAG is created with, "E" = the empty text (the loader accepts it)
 IsValidText(t) == t \in ValidTexts
+\* the steps (among Steps) that a text defines: A and B define s1, s2; C puts a step s0 in front of them; D lists s2 before s1;
+\* the template and the empty text define none of them.  A recorded run keeps the steps of the text it was recorded under:
+\* run.nodes[s] = "absent" for a step the run does not have.
+TextSteps(t) == IF t \in {"A", "B", "D"} THEN {"s1", "s2"} ELSE IF t = "C" THEN {"s0", "s1", "s2"} ELSE {}
+NodesOf(t, f(_)) == [s \in Steps |-> IF s \in TextSteps(t) THEN f(s) ELSE "absent"]
 RUNNING == "running"  FAILED == "failed"  FINISHED == "finished"  CANCELED == "canceled"
 
 Exists(st, d) == d \in Names /\ st.defs[d] # "absent"
@@ -27,6 +32,8 @@ Refuse(st) == Resp("refused", st, <<>>, 0)
 
 Mark(st, a, to) ==
   IF ~Exists(st, a.d) \/ a.req = "" \/ a.step = "" \/ Running(st, a.d) \/ RunIdx(st, a.d, a.req) = {} \/ a.step \notin Steps
+    THEN Refuse(st)
+  ELSE IF \A i \in RunIdx(st, a.d, a.req) : st.runs[a.d][i].nodes[a.step] = "absent"   \* the recorded run has no such step
     THEN Refuse(st)
   ELSE LET i == CHOOSE i \in RunIdx(st, a.d, a.req) : TRUE
            run == st.runs[a.d][i]
